@@ -76,6 +76,10 @@ fn main() {
         }
     }
 
+    if args[2] == "--isolated-history" {
+        // helper of C20: run one history alone in this fresh process (see props/c20.rs)
+        std::process::exit(props::c20::isolated_history_main(args.get(3).map(|s| s.as_str()).unwrap_or("")));
+    }
     if args[2] == "--list-checks" {
         for (c, raw) in vp::fuzzdrive::list_checks(&id) {
             println!("{} {}", c, if raw { "raw-bytes" } else { "generated" });
